@@ -24,6 +24,14 @@ Sub-products (all written out below; TIER selects the reduced or the full alphab
   EMPTY  texts without any statement (comments, blanks, semicolons)
   NOP    pattern sets x statements (match at start / only later / other case / no match) x parameters x
          {cursor.execute, execute_string} x cursor class
+  NOPP   process / instance histories: a statement kind that fakesnow answers itself with its internal success
+         statement (comment on table / column, ALTER .. SET COMMENT, CREATE .. COMMENT, CLUSTER BY, tags, SET / UNSET)
+         on table t x a change of what it referred to (comment set another way, CREATE OR REPLACE, DROP, RENAME,
+         USE SCHEMA, second connection in the same / another schema, second instance of the process without / with
+         its own t) x target {matching statement, non-matching statement} x {execute, execute_string}; the matching
+         statement must give the status row and leave the complete ground truth (catalog, data, fakesnow's side
+         tables, every session of every instance) exactly as it was; the other one must do what it does without the
+         option.  Every work item starts from freshly imported fakesnow modules (fresh_fakesnow)
   NOPH   pattern sets x cursor class x prior history of the cursor (new / query unfetched / partly / fully fetched /
          exhausted / failed statement / DML / a matching statement before) x target (matching statements with and
          without parameters, ordinary queries) x fetch mode (fetchall / fetchone until None / fetchmany(2) twice)
@@ -59,6 +67,7 @@ Classes (deterministic, from the input shape and from what one-by-one execution 
          failing one leave a net effect: net_effect(), a 10-line model of begin/commit/rollback);  else list:no-failure
   EMPTY  text=<token kinds present>
   NOPH   target=<match|other>,prior=<history id>
+  NOPP   history:after=<first statement kind>,change=<change id>        (clauses C16.nop.match / C16.nop.other)
   NOP    path=<execute|execute_string>,params=<yes|no>,patset=<id>,without-option=<ok|parse-error|error>
          (how the statement fares on an instance without the option)
 
@@ -459,9 +468,71 @@ def nop_expected_match(patset, sql, params) -> bool:
     return any(re.match(p, text, re.IGNORECASE) for p in pats)
 
 
+# ---- NOPP: process / instance histories before a statement that matches (or does not match) a pattern.
+# Statement kinds that fakesnow answers with its internal success statement instead of running them (the users of
+# transforms.SUCCESS_NOP: comments on tables / columns, clustering keys, tags, session variables) leave their
+# arguments with that answer; a statement matching nop_regexes gets the same answer.  So: one of them on table t,
+# then a change of what it referred to, then the target.
+P_NOPPERS = {
+    # id -> statements run first on the first connection (table t of the fixture)
+    "comment_on_table": ["comment on table t is 'first'"],
+    "alter_set_comment": ["alter table t set comment = 'first'"],
+    "alter_column_comment": ["alter table t alter column v comment 'first'"],
+    "comment_on_column": ["comment on column t.v is 'first'"],
+    "create_table_comment": ["create table tc (a int, b varchar(3) comment 'cb') comment = 'first'"],
+    "cluster_by": ["alter table t cluster by (k)"],
+    "set_tag": ["alter table t set tag foo = 'bar'"],
+    "column_set_tag": ["alter table t modify column v set tag foo = 'bar'"],
+    "create_tag": ["create tag foo"],
+    "set_variable": ["set hv = 'first'"],
+    "unset_variable": ["set hv = 'first'", "unset hv"],
+    "all_of_them": [
+        "set hv = 'first'", "alter table t cluster by (k)", "alter table t set tag foo = 'bar'",
+        "comment on column t.v is 'first'", "alter table t alter column v comment 'first2'",
+        "alter table t set comment = 'first'", "comment on table t is 'first2'",
+    ],  # fmt: skip
+}
+P_NOPPERS_QUICK = ["comment_on_table", "alter_set_comment", "alter_column_comment", "cluster_by", "set_variable", "all_of_them"]
+P_CHANGES = {
+    # id -> (statements on the first connection, where the target runs)
+    #   where: "conn1" | ("conn2", schema) second connection of the instance | "instance2" | "instance2_with_t"
+    "none": ([], "conn1"),
+    # the comment set another way afterwards (each route separately: the route of the first statement itself would
+    # refresh whatever that statement left behind)
+    "recomment_alter": (["alter table t alter column v comment 'c3'", "alter table t set comment = 'second'"], "conn1"),
+    "recomment_comment_on": (["comment on column t.v is 'c2'", "comment on table t is 'third'"], "conn1"),
+    "recomment_create": (["create or replace table t (k int, v varchar comment 'cv') comment = 'second'"], "conn1"),
+    "drop": (["drop table t"], "conn1"),
+    "rename": (["alter table t rename to t9"], "conn1"),
+    "use_schema": (["use schema s2"], "conn1"),
+    "conn2_same_schema": ([], ("conn2", "s1")),
+    "conn2_other_schema": ([], ("conn2", "s2")),
+    "drop_conn2": (["drop table t"], ("conn2", "s1")),
+    "instance2": ([], "instance2"),
+    "instance2_with_t": ([], "instance2_with_t"),
+}
+P_CHANGES_QUICK = ["none", "recomment_alter", "recomment_comment_on", "drop", "use_schema", "conn2_other_schema", "instance2_with_t"]
+P_PATTERNS = [r"^CALL\b"]
+P_MATCH = "call refresh_all('a;b')"
+P_OTHER = "insert into s values (7, 'n')"  # resolvable or not, depending on the change: same with and without option
+
 # =====================================================================================================================
 # real side
 # =====================================================================================================================
+
+
+def fresh_fakesnow():
+    """Every work item starts from freshly imported fakesnow modules: worker processes are reused across items, and
+    an item must neither see nor leave module-level state of fakesnow (on a tree that has such state, results would
+    otherwise depend on which items a worker happened to run before)."""
+    import importlib
+    import sys
+
+    for name in [n for n in sys.modules if n == "fakesnow" or n.startswith("fakesnow.")]:
+        del sys.modules[name]
+    importlib.import_module("fakesnow.instance")
+    core.assert_repo()
+
 _NOTSET = object()
 
 
@@ -698,6 +769,9 @@ def items(tier):
     for ps in PATSETS:
         for cls in ("tuple", "dict"):
             out.append(("NOPH", ps, cls))
+    for nid in P_NOPPERS_QUICK if tier == "quick" else P_NOPPERS:
+        for cid in P_CHANGES_QUICK if tier == "quick" else P_CHANGES:
+            out.append(("NOPP", nid, cid))
     return out
 
 
@@ -726,7 +800,10 @@ def variants(part, tier):
 
 
 def work(item, acc: core.Acc, tier):
+    fresh_fakesnow()
     part = item[0]
+    if part == "NOPP":
+        return work_nopp(item, acc, tier)
     if part == "NOP":
         return work_nop(item, acc, tier)
     if part == "NOPH":
@@ -1012,6 +1089,147 @@ def h_expected_status(mode, cls):
     return [("many", [row], [])]
 
 
+# ---- NOPP ----------------------------------------------------------------------------------------------------------
+def full_state(pairs):
+    """complete ground truth of every instance involved: catalog, all data incl. fakesnow's side tables, and every
+    session's context / variables (definitions compared modulo comments)"""
+    out = []
+    for fs, conns in pairs:
+        d = dict(observe.digest(fs, conns, views=False))
+        d["sessions"] = tuple(
+            sess[:5] + (tuple((k, _var_text(v)) for k, v in sess[5]),) + sess[6:] for sess in d["sessions"]
+        )
+        # comments kept in the engine's own catalog (column comments) are ground truth too
+        raw = observe.raw(fs)
+        d["engine_comments"] = tuple(
+            raw.execute(
+                "select database_name, schema_name, table_name, column_name, comment from duckdb_columns() "
+                f"where comment is not null and database_name not in {observe.SKIP} "
+                "union all select database_name, schema_name, table_name, null, comment from duckdb_tables() "
+                f"where comment is not null and database_name not in {observe.SKIP} order by all"
+            ).fetchall()
+        )
+        out.append(tuple(sorted(d.items())))
+    return repr(out)
+
+
+def run_process_history(nopper, change, target, path, cls, with_option=True):
+    """[fixture, nopper statements on connection 1] -> [change] -> full state -> target through path -> full state.
+    Everything happens in this process on freshly created instances."""
+    import fakesnow.instance as inst
+
+    logging.disable(logging.WARNING)
+    opts = {"nop_regexes": P_PATTERNS} if with_option else {}
+    stmts, where = P_CHANGES[change]
+    instances = [inst.FakeSnow(**opts)]
+    try:
+        setup = []
+
+        def ex(conn, sql):
+            try:
+                conn.cursor().execute(sql)
+            except Exception as e:  # noqa: BLE001
+                setup.append((sql,) + _exc(e)[:3])
+
+        c1 = instances[0].connect(database="db1", schema="s1")
+        for f in FIXTURE:
+            ex(c1, f)
+        for sql in P_NOPPERS[nopper]:
+            ex(c1, sql)
+        for sql in stmts:
+            ex(c1, sql)
+        pairs = [(instances[0], [c1])]
+        actor = c1
+        if isinstance(where, tuple):
+            actor = instances[0].connect(database="db1", schema=where[1])
+            pairs[0][1].append(actor)
+        elif where.startswith("instance2"):
+            instances.append(inst.FakeSnow(**opts))
+            actor = instances[1].connect(database="db1", schema="s1")
+            pairs.append((instances[1], [actor]))
+            if where == "instance2_with_t":
+                for f in FIXTURE:
+                    ex(actor, f)
+                ex(actor, "alter table t set comment = 'other instance'")
+        pre = full_state(pairs)
+        curs, exc = [], None
+        try:
+            if path == "execute_string":
+                curs = list(actor.execute_string(target + ";", cursor_class=_cursor_class(cls)))
+            else:
+                curs = [actor.cursor(_cursor_class(cls)).execute(target)]
+        except Exception as e:  # noqa: BLE001
+            exc = _exc(e)
+        obs = [observe_cursor(c) for c in curs]
+        post = full_state(pairs)
+        return {"setup_errors": setup, "n": len(curs), "raw": obs, "curs": [repr(o) for o in obs], "exc": exc,
+                "pre": pre, "post": post}  # fmt: skip
+    finally:
+        for fs in instances:
+            try:
+                fs.duck_conn.close()
+            except Exception:  # noqa: BLE001
+                pass
+
+
+def _state_diff(pre, post):
+    """where two state reprs differ (for the violation detail)"""
+    i = next((j for j, (a, b) in enumerate(zip(pre, post)) if a != b), min(len(pre), len(post)))
+    return {"before": pre[max(0, i - 200) : i + 200], "after": post[max(0, i - 200) : i + 200]}
+
+
+def work_nopp(item, acc, tier):
+    _, nid, cid = item
+    variants_ = [("execute", "tuple"), ("execute_string", "tuple")]
+    if tier != "quick":
+        variants_ += [("execute", "dict"), ("execute_string", "dict")]
+    k = f"history:after={nid},change={cid}"
+    for path, cls in variants_:
+        r = run_process_history(nid, cid, P_MATCH, path, cls)
+        acc.count("evaluations")
+        acc.count("process_histories")
+        acc.obs((item, path, cls, "match", r["setup_errors"], r["curs"], r["exc"], core.h(r["pre"]), core.h(r["post"])))
+        acc.outcome(("nopp", r["n"], r["exc"] and r["exc"][:3], r["curs"][:1]))
+        acc.nontrivial((nid, cid, path, cls, "match"))
+        problems = nop_match_problems(dict(r, state=(r["post"],)))
+        if r["post"] != r["pre"] and ("digest changed",) in problems:
+            problems.append(("what changed", _state_diff(r["pre"], r["post"])))
+        acc.member("C16.nop.match", k, bool(problems))
+        if problems:
+            acc.violation(
+                "C16.nop.match",
+                k,
+                {"patterns": P_PATTERNS, "first": P_NOPPERS[nid], "change": P_CHANGES[cid], "statement": P_MATCH,
+                 "path": path, "cursor_class": cls, "setup_errors": r["setup_errors"], "problems": problems},
+                {"part": "nopp", "nopper": nid, "change": cid, "tier": tier},
+            )  # fmt: skip
+        if cls != "tuple":
+            continue
+        # a statement that does not match: exactly as on instances created without the option
+        w = run_process_history(nid, cid, P_OTHER, path, cls)
+        wo = run_process_history(nid, cid, P_OTHER, path, cls, with_option=False)
+        acc.count("evaluations", 2)
+        acc.count("process_histories", 2)
+        acc.obs((item, path, "other", w["setup_errors"], w["curs"], w["exc"], core.h(w["post"])))
+        if w["post"] != w["pre"] or w["exc"] is not None:
+            acc.nontrivial((nid, cid, path, cls, "other"))
+        problems = []
+        for key in ("setup_errors", "exc", "curs", "pre", "post"):
+            if w[key] != wo[key]:
+                problems.append((key, w[key] if key not in ("pre", "post") else _state_diff(wo[key], w[key]), wo[key] if key not in ("pre", "post") else None))
+        acc.member("C16.nop.other", k, bool(problems))
+        if problems:
+            acc.violation(
+                "C16.nop.other",
+                k,
+                {"patterns": P_PATTERNS, "first": P_NOPPERS[nid], "change": P_CHANGES[cid], "statement": P_OTHER,
+                 "path": path, "problems": problems},
+                {"part": "nopp", "nopper": nid, "change": cid, "tier": tier},
+            )  # fmt: skip
+    acc.sample({"item": item, "first": P_NOPPERS[nid], "change": P_CHANGES[cid], "match": P_MATCH, "other": P_OTHER})
+    return None
+
+
 def work_noph(item, acc, tier):
     """For one pattern set and cursor class: every (prior history, target statement, fetch mode) on one instance.
     Oracle: the target executed on the used cursor is observed exactly as the same target executed on a new cursor
@@ -1117,7 +1335,9 @@ def run(ctx: core.Ctx):
         "LIST = every statement sequence within LIST_BOUNDS x styles x cursor class/return_cursors variants; "
         "KIND = one list per statement kind x styles; EMPTY = statement-free texts x cursor class/return_cursors; "
         "NOP = pattern sets x statements x {execute, execute_string} x cursor class, with-option vs without-option "
-        "instances; NOPH = pattern sets x cursor class x prior cursor histories x targets x fetch modes, used cursor "
+        "instances; NOPP = statement kinds answered by fakesnow's internal success statement x changes of what they "
+        "referred to (comment set another way, drop, rename, USE SCHEMA, second connection, second instance) x "
+        "{matching, other} statement x {execute, execute_string}; NOPH = pattern sets x cursor class x prior cursor histories x targets x fetch modes, used cursor "
         "vs new cursor; non-trivial = text whose one-by-one execution changes state, fails, or has > 1 statement, and "
         "nop cases the reference says match"
     )
@@ -1141,6 +1361,8 @@ def run(ctx: core.Ctx):
         "nop_statements": NOP_QUICK_STMTS if ctx.quick else list(NOP_STMTS),
         "cursor_history_priors": H_PRIORS_QUICK if ctx.quick else list(H_PRIORS),
         "cursor_history_modes": H_MODES,
+        "process_history_first": P_NOPPERS_QUICK if ctx.quick else list(P_NOPPERS),
+        "process_history_changes": P_CHANGES_QUICK if ctx.quick else list(P_CHANGES),
         "layouts": sorted({x[0] for x in LIT_SHAPES[ctx.tier]}),
     }
     ctx.extra["items"] = len(its)
@@ -1175,6 +1397,9 @@ def replay(payload):
     elif r["part"] == "empty":
         i = EMPTY_TEXTS.index(r["text"])
         work_empty(("EMPTY", i), acc, "quick")
+    elif r["part"] == "nopp":
+        fresh_fakesnow()
+        work_nopp(("NOPP", r["nopper"], r["change"]), acc, r.get("tier", "thorough"))
     elif r["part"] == "noph":
         work_noph(("NOPH", r["patset"], r["cursor_class"]), acc, r.get("tier", "thorough"))
     elif r["part"] == "nop":
